@@ -63,6 +63,7 @@ type duplex struct {
 	peerWait   bool   // the peer is blocked in Read with nothing to read
 	peerDone   bool   // the peer will not read any more
 	onIdle     func() // called (once) when the server blocks in Read with an empty queue
+	async      bool   // server -> peer writes are only queued (a live peer reads them when it wants)
 }
 
 func newDuplex(log *evlog) *duplex {
@@ -124,6 +125,10 @@ func (d *duplex) Write(b []byte) (int, error) {
 	}
 	d.out = append(d.out, b...)
 	d.cv.Broadcast()
+	if d.async {
+		d.mu.Unlock()
+		return len(b), nil
+	}
 	deadline := time.Now().Add(5 * time.Second)
 	for !(len(d.out) == 0 && d.peerWait) && !d.peerDone && !d.closed {
 		if time.Now().After(deadline) {
@@ -185,13 +190,21 @@ func (p peerConn) Read(b []byte) (int, error) {
 	d := p.d
 	d.mu.Lock()
 	defer d.mu.Unlock()
+	deadline := time.Now().Add(6 * time.Second)
 	for len(d.out) == 0 {
 		if d.closed {
 			return 0, io.EOF
 		}
+		if d.async && time.Now().After(deadline) {
+			return 0, timeoutErr{}
+		}
 		d.peerWait = true
 		d.cv.Broadcast()
-		d.cv.Wait()
+		if d.async {
+			waitTimeout(d.cv, 200*time.Millisecond)
+		} else {
+			d.cv.Wait()
+		}
 	}
 	d.peerWait = false
 	n := copy(b, d.out)
